@@ -232,7 +232,7 @@ func TestVerif_C10_Datagrams(t *testing.T) {
 		sc := c10Dgram{Client: vClientCfg{
 			UID: vUIDb64(rapid.SliceOfN(rapid.Byte(), 16, 16).Draw(rt, "uid")), Method: "openvpn",
 			Enc:     rapid.SampledFrom([]string{"plain", "aes-256-gcm", "aes-128-gcm", "chacha20-poly1305"}).Draw(rt, "enc"),
-			NumConn: rapid.IntRange(0, 4).Draw(rt, "numconn"), Browser: rapid.SampledFrom([]string{"chrome", "firefox", "safari"}).Draw(rt, "browser"),
+			NumConn: rapid.IntRange(0, 4).Draw(rt, "numconn"), Browser: frBrowserGen.Draw(rt, "browser"),
 			Transport: "direct", ServerName: "www.bing.com", UDP: true}}
 		size := rapid.OneOf(rapid.SampledFrom([]int{0, 0, 1, 1200, 16132, 8192}), rapid.IntRange(0, 2000))
 		for i, n := 0, rapid.IntRange(1, 6).Draw(rt, "nc2s"); i < n; i++ {
